@@ -40,6 +40,18 @@ Proof.
   destruct susp; [apply T_set; auto|apply Hk, T_unlock; auto].
 Qed.
 
+Lemma T_rd_after_lock : forall t s, T s -> T (rd_after_lock t s).
+Proof.
+  intros t s H. unfold rd_after_lock. assert (F := T_flush s H). destruct (flush s) as [s1 susp]. simpl in F.
+  destruct susp; [apply T_set; auto|apply T_set, T_unlock; auto].
+Qed.
+
+Lemma T_rd_enter : forall t s, T s -> T (rd_enter t s).
+Proof.
+  intros t s H. unfold rd_enter. destruct (x_wbio s) as [|b0 r0]; [apply T_set; auto|].
+  destruct (fl_acquire t (x_lock s)) as [lk got]. destruct got; [apply T_rd_after_lock, T_lock; auto|apply T_set, T_lock; auto].
+Qed.
+
 Lemma T_run_task : forall prog t s, T s -> T (x_run_task t prog s).
 Proof.
   induction prog as [|d rest IH]; intros t s H; simpl.
@@ -53,23 +65,28 @@ Lemma T_step : forall s l s', T s -> x_next s l = Some s' -> T s'.
 Proof.
   intros s l s' H E. destruct l as [t|t|t|t|t]; simpl in E;
     destruct (nth_error (x_tasks s) t) as [x|]; try discriminate; destruct x; try discriminate.
-  - inversion E; subst. apply T_run_task, T_set; auto.
+  - destruct (mem_tid t (x_readers s)); inversion E; subst; [apply T_rd_enter, T_set; auto|apply T_run_task, T_set; auto].
   - destruct (fl_resume t (x_lock s)); [|discriminate]. inversion E; subst.
     apply T_after_lock; [apply T_lock, T_set; auto|]. intros; apply T_run_task; auto.
+  - destruct (fl_resume t (x_lock s)); [|discriminate]. inversion E; subst. apply T_rd_after_lock, T_lock, T_set; auto.
   - inversion E; subst. apply T_run_task, T_unlock, T_set; auto.
+  - inversion E; subst. apply T_set, T_unlock; auto.
   - inversion E; subst. apply T_set, T_unlock; auto.
   - inversion E; subst. apply T_set; auto.
   - destruct (fl_cancel t (x_lock s)); [|discriminate]. inversion E; subst. apply T_set, T_lock; auto.
   - inversion E; subst. apply T_set, T_unlock; auto.
+  - destruct (fl_cancel t (x_lock s)); [|discriminate]. inversion E; subst. apply T_set, T_lock; auto.
+  - inversion E; subst. apply T_set, T_unlock; auto.
+  - inversion E; subst. apply T_set; auto.
 Qed.
 
 Lemma tls_wire_order_proof :
-  forall progs ls s, x_run (tls_init progs) ls = Some s ->
+  forall progs readers ls s, x_run (tls_init progs readers) ls = Some s ->
     concat (rev (x_calls s)) ++ concat (x_wbio s) = concat (rev (x_writes s)).
 Proof.
-  intros progs ls. assert (G : forall s0 s, T s0 -> x_run s0 ls = Some s -> T s).
+  intros progs readers ls. assert (G : forall s0 s, T s0 -> x_run s0 ls = Some s -> T s).
   { induction ls as [|l ls IH]; simpl; intros s0 s H R.
     - inversion R; subst; auto.
     - destruct (x_next s0 l) as [s1|] eqn:E; [|discriminate]. eapply IH; [|eauto]. eapply T_step; eauto. }
-  intros s R. apply (G (tls_init progs) s); auto. reflexivity.
+  intros s R. apply (G (tls_init progs readers) s); auto. reflexivity.
 Qed.
